@@ -446,6 +446,31 @@ func c18Check(c *C, k c18Case, viaTemplate bool) bool {
 			return false
 		}
 	}
+	if _, isStr := k.in.(string); isStr && !k.seq && (viaTemplate || k.param == nil) {
+		// the filter tag, the filter standing behind another filter that has a parameter of its own
+		// (default_if_none never fires on a rendered body): a filter written without a parameter gets none
+		for _, noop := range []string{"7", "ja,nein,x"} {
+			fsrc := "{% autoescape off %}{% filter default_if_none:noop|" + k.filter
+			ctx := pongo2.Context{"v": k.in, "noop": noop}
+			if k.param != nil {
+				fsrc += ":p"
+				ctx["p"] = k.param
+			}
+			fsrc += " %}{{ v }}{% endfilter %}{% endautoescape %}"
+			fout, fcerr, fxerr := renderString(fsrc, ctx)
+			c.Eval(1)
+			if fcerr != nil || fxerr != nil || fout != v.String() {
+				d := desc()
+				d["template"] = fsrc
+				d["noop"] = noop
+				d["template_output"] = q(fout)
+				d["applyfilter_output"] = q(v.String())
+				d["error"] = errStr(fcerr) + errStr(fxerr)
+				c.Fail("routes-disagree", d)
+				return false
+			}
+		}
+	}
 	return true
 }
 
